@@ -68,6 +68,9 @@ def run_watchdog(cmd, outfiles, timeout, stall):
     """run an MPI job; kill it (rc 124) when no rank has completed a case for `stall` seconds or after `timeout` seconds"""
     import time, signal, tempfile
     e = dict(os.environ); e.update(MPIENV)
+    if os.environ.get("VERIF_SANITIZE"):      # C07's sanitizer re-run of this stream: Open MPI's own allocations are not ours to judge
+        e.setdefault("ASAN_OPTIONS", "detect_leaks=0:exitcode=97:allocator_may_return_null=1")
+        e.setdefault("UBSAN_OPTIONS", "print_stacktrace=1:halt_on_error=1")
     errf = tempfile.TemporaryFile(mode="w+")
     p = subprocess.Popen(cmd, stdout=subprocess.DEVNULL, stderr=errf, env=e, start_new_session=True)
     t0 = last = time.time(); size = -1; rc = None
@@ -147,6 +150,18 @@ def run_batch(exe, P, lines, tag, timeout, threads=1, stall=90, traces=None):
                 done = i; break
         errs, tails = read_traces(op, P)
         if any(tails): se = (se or "") + " | ranks' stderr: " + " / ".join(t for t in tails if t)
+        sanlog = os.environ.get("VERIF_SAN_LOG")
+        if sanlog:                              # C07: a sanitizer report of any rank, with the case the job was at
+            import re as _re
+            for r in range(P):
+                try: txt = open("%s.err.%d" % (op, r), errors="replace").read()
+                except OSError: txt = ""
+                if _re.search(r"Sanitizer|runtime error:", txt):
+                    i0 = txt.find("runtime error:") if "Sanitizer" not in txt else txt.find("==")
+                    with open(sanlog, "a") as f:
+                        f.write(json.dumps({"cmd": cmd, "case": lines[min(start + done, len(lines) - 1)], "rc": rc, "rank": r,
+                                            "report": txt[max(0, i0):][:3000]}) + "\n")
+                    break
         for i in range(done):
             results[start + i] = [o[i] for o in outs]
             if traces is not None: traces[start + i] = [errs[r].get(i, []) for r in range(P)]
